@@ -151,166 +151,103 @@ theorem unregistered_type_rejected (s : RS) (encs : List (Str × Enc)) (h : look
 
 end decision
 
-/-! ## (c) request-side reading of schemas -/
+/-! ## (c) request-side reading of schemas (own keywords and `not` / `oneOf` / `anyOf` / `allOf`) -/
 
-/-- **C06(c), full strength** (since repair e80060c of the repository; before it the statement needed the
-exclusion class ReadOnlyNull). The request-side validator accepts a value exactly when the value satisfies the
-schema read as a request: types, nullable, minLength, maximum, items, properties, additionalProperties,
-required — where a readOnly property need not be present even if required and must be absent unless
-read-only validation is excluded, and writeOnly plays no role. For every schema of the fragment, every
-value, both settings of the option; no bound on sizes. -/
-theorem visit_asreq_iff (exro : Bool) :
-    ∀ (s : RS) (v : V), visit exro s v = true ↔ SatReq exro s v := by
-  have key := visit.mutual_induct
-    (motive_1 := fun s v => visit exro s v = true ↔ SatReq exro s v)
-    (motive_2 := fun s kvs => visitFields exro s kvs = true ↔ SatFields exro s kvs)
-    (motive_3 := fun it xs => visitItems exro it xs = true ↔ SatItems exro it xs)
-  refine (key ?null ?bool ?int ?half ?str ?arr ?obj ?inil ?icons ?fnil ?fcons).1
-  case null => intro s; simp [visit, SatReq]
-  case bool =>
-    intro s b
-    rw [visit, SatReq]
-    cases he : isEmptyLeaf s with
-    | true => have e := emptyLeaf_of s he; simp [e.ty]
-    | false => simp [permits_iff]
-  case int =>
-    intro s n
-    rw [visit, SatReq]
-    cases he : isEmptyLeaf s with
-    | true => have e := emptyLeaf_of s he; simp [e.ty, e.max]
-    | false =>
-      simp only [Bool.false_or, Bool.and_eq_true]
-      apply and_congr
-      · cases s.ty with
-        | none => simp [numTypeOK, permits]
-        | some t => cases t <;> simp [numTypeOK, permits]
-      · cases s.max with
-        | none => simp [maxOK]
-        | some m => simp [maxOK]
-  case half =>
-    intro s n
-    rw [visit, SatReq]
-    cases he : isEmptyLeaf s with
-    | true => have e := emptyLeaf_of s he; simp [e.ty, e.max]
-    | false =>
-      simp only [Bool.false_or, Bool.and_eq_true]
-      apply and_congr
-      · cases s.ty with
-        | none => simp [numTypeOK, permits]
-        | some t => cases t <;> simp [numTypeOK, permits]
-      · cases s.max with
-        | none => simp [maxOK]
-        | some m => simp [maxOK]
-  case str =>
-    intro s t
-    rw [visit, SatReq]
-    cases he : isEmptyLeaf s with
-    | true => have e := emptyLeaf_of s he; simp [e.ty, e.minLen]
-    | false =>
-      simp only [Bool.false_or, Bool.and_eq_true, permits_iff, Bool.or_eq_true, beq_iff_eq, decide_eq_true_eq]
-      apply and_congr Iff.rfl
-      constructor
-      · rintro (h | h)
-        · omega
-        · exact h
-      · intro h; exact Or.inr h
+/-- The code's control flow computes the clause-by-clause verdict: the null pre-check, the shortcut for empty
+schemas and "null after a composition needs no own keywords" change nothing, at any depth of properties,
+items and composition members, for both settings of the exclusion option. -/
+theorem visit_eq_satReqB (exro : Bool) : ∀ (s : RS) (v : V), visit exro s v = satReqB exro s v := by
+  have key := visitV.mutual_induct
+    (motive_1 := fun v => visitV exro v = satVB exro v)
+    (motive_2 := fun kvs => visitFields exro kvs = satFieldsB exro kvs)
+    (motive_3 := fun xs => visitItems exro xs = satItemsB exro xs)
+  have nonnull : ∀ (own : RS → Bool), (∀ s, isEmptyLeaf s = true → own s = true) →
+      (fun s => comp false own s) = (fun s => satCB false own s) := by
+    intro own hE
+    funext s
+    exact comp_eq_satCB false own own (fun _ _ => rfl) (fun _ => hE) (fun h => by cases h) s
+  have h := (key ?null ?bool ?int ?half ?str ?arr ?obj ?inil ?icons ?fnil ?fcons).1
+  · intro s v; unfold visit satReqB; rw [h v]
+  case null =>
+    unfold visitV satVB
+    funext s
+    exact comp_eq_satCB true _ _ (fun h => by cases h) (fun h => by cases h) (fun _ _ => rfl) s
+  case bool => intro b; unfold visitV satVB; exact nonnull _ (fun s h => (own_of_emptyLeaf s h).1)
+  case int => intro n; unfold visitV satVB; exact nonnull _ (fun s h => (own_of_emptyLeaf s h).2.1 n)
+  case half => intro n; unfold visitV satVB; exact nonnull _ (fun s h => (own_of_emptyLeaf s h).2.2.1 n)
+  case str => intro t; unfold visitV satVB; exact nonnull _ (fun s h => (own_of_emptyLeaf s h).2.2.2.1 t)
   case arr =>
-    intro s xs ih
-    rw [visit, SatReq]
-    cases he : isEmptyLeaf s with
-    | true => have e := emptyLeaf_of s he; simp [e.ty, e.items]
-    | false =>
-      simp only [Bool.false_or, Bool.and_eq_true, permits_iff]
-      apply and_congr Iff.rfl
-      cases hi : s.items with
-      | none => simp
-      | some it =>
-        simp only [Option.some.injEq, forall_eq']
-        exact ih it
+    intro xs ih; unfold visitV satVB; rw [ih]
+    exact nonnull _ (fun s h => (own_of_emptyLeaf s h).2.2.2.2.1 _)
   case obj =>
-    intro s kvs ih
-    rw [visit, SatReq]
-    cases he : isEmptyLeaf s with
-    | true =>
-      have e := emptyLeaf_of s he
-      have hf : SatFields exro s kvs := satFields_of_emptyLeaf exro s e kvs
-      simp [e.ty, e.required, e.props, lookup, isRO, hf]
-    | false =>
-      simp only [Bool.false_or, Bool.and_eq_true, permits_iff, roLoopOK_iff exro s kvs, requiredOK_iff, ih]
-      constructor
-      · rintro ⟨⟨⟨h1, h2⟩, h3⟩, h4⟩; exact ⟨h1, h3, h4, h2⟩
-      · rintro ⟨h1, h3, h4, h2⟩; exact ⟨⟨⟨h1, h2⟩, h3⟩, h4⟩
-  case inil => intro it; simp [visitItems, SatItems]
-  case icons =>
-    intro it v r ih1 ih2
-    rw [visitItems, SatItems, Bool.and_eq_true, ih1, ih2]
-  case fnil => intro s; simp [visitFields, SatFields]
-  case fcons =>
-    intro s k v r ih1 ih2
-    rw [visitFields, SatFields, Bool.and_eq_true, ih2]
-    apply and_congr _ Iff.rfl
-    cases hl : lookup k s.props with
-    | none => simp
-    | some p => exact ih1 p
+    intro kvs ih; unfold visitV satVB; rw [ih]
+    exact nonnull _ (fun s h => (own_of_emptyLeaf s h).2.2.2.2.2 exro _)
+  case inil => rfl
+  case icons => intro v r ih1 ih2; unfold visitItems satItemsB; rw [ih1, ih2]
+  case fnil => rfl
+  case fcons => intro k v r ih1 ih2; unfold visitFields satFieldsB; rw [ih1, ih2]
 
 /-- the executable oracle used in the correspondence run decides `SatReq` -/
 theorem satReqB_iff (exro : Bool) : ∀ (s : RS) (v : V), satReqB exro s v = true ↔ SatReq exro s v := by
-  have key := visit.mutual_induct
-    (motive_1 := fun s v => satReqB exro s v = true ↔ SatReq exro s v)
-    (motive_2 := fun s kvs => satFieldsB exro s kvs = true ↔ SatFields exro s kvs)
-    (motive_3 := fun it xs => satItemsB exro it xs = true ↔ SatItems exro it xs)
-  refine (key ?null ?bool ?int ?half ?str ?arr ?obj ?inil ?icons ?fnil ?fcons).1
-  case null => intro s; simp [satReqB, SatReq]
-  case bool => intro s b; simp [satReqB, SatReq]
-  case int =>
-    intro s n; rw [satReqB, SatReq]
-    cases s.max <;> simp [or_assoc]
-  case half =>
-    intro s n; rw [satReqB, SatReq]
-    cases s.max <;> simp
-  case str => intro s t; simp [satReqB, SatReq]
+  have key := visitV.mutual_induct
+    (motive_1 := fun v => ∀ s, satVB exro v s = true ↔ SatV exro v s)
+    (motive_2 := fun kvs => keys (satFieldsB exro kvs) = keys (SatFields exro kvs) ∧
+        ∀ s, fieldsOK s (satFieldsB exro kvs) = true ↔ FieldsSat s (SatFields exro kvs))
+    (motive_3 := fun xs => ∀ it, ((satItemsB exro xs).all fun f => f it) = true ↔ ∀ F ∈ SatItems exro xs, F it)
+  have h := (key ?null ?bool ?int ?half ?str ?arr ?obj ?inil ?icons ?fnil ?fcons).1
+  · intro s v; exact h v s
+  case null => intro s; unfold satVB SatV; exact satCB_iff true _ _ (by simp) s
+  case bool => intro b s; unfold satVB SatV; exact satCB_iff false _ _ ownBool_iff s
+  case int => intro n s; unfold satVB SatV; exact satCB_iff false _ _ (ownInt_iff n) s
+  case half => intro n s; unfold satVB SatV; exact satCB_iff false _ _ (ownHalf_iff n) s
+  case str => intro t s; unfold satVB SatV; exact satCB_iff false _ _ (ownStr_iff t) s
   case arr =>
-    intro s xs ih; rw [satReqB, SatReq]
-    cases hi : s.items with
+    intro xs ih s; unfold satVB SatV
+    refine satCB_iff false _ _ ?_ s
+    intro s'
+    unfold ownArr OwnArr
+    rw [Bool.and_eq_true, permits_iff]
+    apply and_congr Iff.rfl
+    cases hi : s'.items with
     | none => simp
-    | some it => simp [ih it]
+    | some it => simp only [Option.some.injEq, forall_eq']; exact ih it
   case obj =>
-    intro s kvs ih; rw [satReqB, SatReq]
-    simp only [Bool.and_eq_true, Bool.or_eq_true, beq_iff_eq, ih, List.all_eq_true, List.contains_iff_mem,
-      Bool.not_eq_true']
+    intro kvs ih s; unfold satVB SatV
+    refine satCB_iff false _ _ ?_ s
+    intro s'
+    unfold ownObj OwnObj
+    rw [ih.1]
+    simp only [Bool.and_eq_true, permits_iff, roLoopOK_iff, requiredOK_iff, ih.2 s']
     constructor
-    · rintro ⟨⟨⟨h1, h2⟩, h3⟩, h4⟩
-      refine ⟨h1, h2, h3, ?_⟩
-      intro hx k hro hk
-      rcases h4 with h4 | h4
-      · simp [hx] at h4
-      · have hkp : k ∈ keys s.props := by
-          cases hl : lookup k s.props with
-          | none => simp [hl, isRO] at hro
-          | some p => exact mem_keys_of_mem k p _ (lookup_some_mem k _ p hl)
-        rcases h4 k hkp with h5 | h5
-        · simp [hro] at h5
-        · simp [hk] at h5
-    · rintro ⟨h1, h2, h3, h4⟩
-      refine ⟨⟨⟨h1, h2⟩, h3⟩, ?_⟩
-      cases hx : exro with
-      | true => left; rfl
-      | false =>
-        right
-        intro k _
-        cases hro : isRO (lookup k s.props) with
-        | false => left; rfl
-        | true => right; simpa using h4 hx k hro
+    · rintro ⟨⟨⟨h1, h2⟩, h3⟩, h4⟩; exact ⟨h1, h3, h4, h2⟩
+    · rintro ⟨h1, h3, h4, h2⟩; exact ⟨⟨⟨h1, h2⟩, h3⟩, h4⟩
   case inil => intro it; simp [satItemsB, SatItems]
-  case icons => intro it v r ih1 ih2; rw [satItemsB, SatItems, Bool.and_eq_true, ih1, ih2]
-  case fnil => intro s; simp [satFieldsB, SatFields]
+  case icons =>
+    intro v r ih1 ih2 it
+    unfold satItemsB SatItems
+    simp only [List.all_cons, Bool.and_eq_true, List.mem_cons, forall_eq_or_imp, ih1 it, ih2 it]
+  case fnil => exact ⟨rfl, fun s => by simp [satFieldsB, SatFields, fieldsOK, FieldsSat]⟩
   case fcons =>
-    intro s k v r ih1 ih2
-    rw [satFieldsB, SatFields, Bool.and_eq_true, ih2]
+    intro k v r ih1 ih2
+    unfold satFieldsB SatFields
+    refine ⟨by simp only [keys, List.map_cons] at ih2 ⊢; rw [ih2.1], ?_⟩
+    intro s
+    have ihr := ih2.2 s
+    unfold fieldsOK FieldsSat at ihr ⊢
+    simp only [List.all_cons, Bool.and_eq_true, List.mem_cons, forall_eq_or_imp, ihr]
     apply and_congr _ Iff.rfl
-    cases hl : lookup k s.props with
+    cases lookup k s.props with
     | none => simp
     | some p => exact ih1 p
+
+/-- **C06(c), full strength.** The request-side validator accepts a value exactly when the value satisfies the
+schema read as a request: types, nullable, minLength, maximum, items, properties, additionalProperties,
+required, and `not` / `oneOf` (exactly one) / `anyOf` / `allOf` — where, in the schema itself **and in every
+composition member at any depth**, a readOnly property need not be present even if required and must be
+absent unless read-only validation is excluded, and writeOnly plays no role. For every schema of the
+fragment, every value, both settings of the option; no bound on sizes. -/
+theorem visit_asreq_iff (exro : Bool) (s : RS) (v : V) : visit exro s v = true ↔ SatReq exro s v := by
+  rw [visit_eq_satReqB]; exact satReqB_iff exro s v
 
 /-- under `ExcludeReadOnlyValidations` a readOnly property may be present, may be absent even if required, and
 everything else is checked as usual (instance of `visit_asreq_iff`) -/
@@ -318,118 +255,125 @@ theorem visit_exro_iff (s : RS) (v : V) : visit true s v = true ↔ SatReq true 
   visit_asreq_iff true s v
 
 /-- regression of the repaired finding F-C06-2 (ReadOnlyNull, e80060c): property `a` is readOnly, nullable;
-the request body `{"a": null}` carries the key; validator and request-side reading now both reject it. -/
+the request body `{"a": null}` carries the key; validator and request-side reading both reject it. -/
 theorem readOnlyNull_regression :
-    let pa := RS.mk (some .string) true true false 0 none [] [] none none
-    let s := RS.mk (some .object) false false false 0 none [(['a'], pa)] [] none none
+    let pa := RS.leaf (some .string) true true false 0 none [] [] none none
+    let s := RS.leaf (some .object) false false false 0 none [(['a'], pa)] [] none none
     let v := V.obj [(['a'], .null)]
     visit false s v = false ∧ satReqB false s v = false ∧ visit true s v = true ∧ satReqB true s v = true := by decide
 
-/-- a readOnly property that is present — with any value, null included — is rejected (read-only validation on) -/
+/-- a non-null value that fails the own keywords of a schema is rejected whatever its composition keywords say -/
+theorem own_false_rejects (own : RS → Bool) (s : RS) (h : own s = false) : satCB false own s = false := by
+  cases s; unfold satCB; simp [h]
+
+/-- a readOnly property of the schema itself that is present — with any value, null included — is rejected
+(read-only validation on), whatever else the schema says -/
 theorem readOnly_present_rejected (s : RS) (kvs : List (Str × V)) (k : Str) (v : V)
     (hro : isRO (lookup k s.props) = true) (hv : lookup k kvs = some v) :
     visit false s (.obj kvs) = false := by
-  rw [visit]
-  have hkp : k ∈ keys s.props := by
-    cases hl : lookup k s.props with
-    | none => simp [hl, isRO] at hro
-    | some p => exact mem_keys_of_mem k p _ (lookup_some_mem k _ p hl)
-  have he : isEmptyLeaf s = false := by
-    cases h : isEmptyLeaf s with
-    | false => rfl
-    | true => have e := emptyLeaf_of s h; rw [e.props] at hkp; simp [keys] at hkp
-  have hl : roLoopOK false s.props kvs = false := by
-    unfold roLoopOK
+  rw [visit_eq_satReqB]
+  unfold satReqB satVB
+  apply own_false_rejects
+  have hk : k ∈ keys (satFieldsB false kvs) := by
+    have hm := mem_keys_of_mem k v kvs (lookup_some_mem k kvs v hv)
+    have : ∀ l : List (Str × V), keys (satFieldsB false l) = keys l := by
+      intro l
+      induction l with
+      | nil => rfl
+      | cons x r ih => obtain ⟨k', v'⟩ := x; unfold satFieldsB; simp only [keys, List.map_cons] at ih ⊢; rw [ih]
+    rw [this]; exact hm
+  have hl : roLoopOK false s.props (keys (satFieldsB false kvs)) = false := by
     apply Bool.eq_false_iff.mpr
     intro hall
-    have := (List.all_eq_true.mp hall) k hkp
-    simp [hro, hv] at this
-  simp [he, hl]
+    exact ((roLoopOK_iff false s _).mp hall) rfl k hro hk
+  simp [ownObj, hl]
 
-/-- a required readOnly property may be missing from a request: the `required` check is the same as for the
-schema without that name in `required` — with and without the exclusion option -/
-theorem readOnly_required_may_be_absent (s : RS) (kvs : List (Str × V)) :
-    requiredOK s kvs = true ↔ ∀ k ∈ s.required, k ∈ keys kvs ∨ isRO (lookup k s.props) = true :=
-  requiredOK_iff s kvs
+/-- a required readOnly property may be missing from a request: the `required` check of a schema exempts the
+names it declares readOnly — with and without the exclusion option -/
+theorem readOnly_required_may_be_absent (s : RS) (ks : List Str) :
+    requiredOK s ks = true ↔ ∀ k ∈ s.required, k ∈ ks ∨ isRO (lookup k s.props) = true :=
+  requiredOK_iff s ks
 
 example :
-    let pa := RS.mk (some .string) false true false 0 none [] [] none none
-    let s := RS.mk (some .object) false false false 0 none [(['a'], pa)] [['a']] none none
+    let pa := RS.leaf (some .string) false true false 0 none [] [] none none
+    let s := RS.leaf (some .object) false false false 0 none [(['a'], pa)] [['a']] none none
     visit false s (.obj []) = true ∧ visit true s (.obj []) = true ∧
     visit false s (.obj [(['a'], .str ['x'])]) = false ∧ visit true s (.obj [(['a'], .str ['x'])]) = true := by decide
 
+/-- the same rules inside composition members (the class of seeded change r2-m1): `a` is readOnly and required
+inside a member of `anyOf` / `oneOf` / `allOf`; omitting it is accepted, sending it is rejected, the
+exclusion option admits it -/
+theorem readOnly_inside_members :
+    let pa := RS.leaf (some .string) false true false 0 none [] [] none none
+    let m := RS.leaf none false false false 0 none [(['a'], pa)] [['a']] none none
+    let other := RS.leaf (some .string) false false false 0 none [] [] none none
+    let sAny := RS.mk (some .object) false false false 0 none [] [] none none none [] [other, m] []
+    let sOne := RS.mk (some .object) false false false 0 none [] [] none none none [other, m] [] []
+    let sAll := RS.mk (some .object) false false false 0 none [] [] none none none [] [] [m]
+    let sent := V.obj [(['a'], .str ['x'])]
+    [sAny, sOne, sAll].all (fun s => visit false s (.obj []) && !visit false s sent && visit true s sent &&
+      satReqB false s (.obj []) && !satReqB false s sent && satReqB true s sent) = true := by decide
+
+/-- `null` against compositions: admitted by a nullable member of `anyOf`, not by `allOf` with a non-nullable
+member, and a nullable schema admits it before any composition is looked at (the library's reading) -/
+example :
+    let strN := RS.leaf (some .string) true false false 0 none [] [] none none
+    let str := RS.leaf (some .string) false false false 0 none [] [] none none
+    visit false (RS.mk none false false false 0 none [] [] none none none [] [strN] []) .null = true ∧
+    visit false (RS.mk none false false false 0 none [] [] none none none [] [] [strN, str]) .null = false ∧
+    visit false (RS.mk none true false false 0 none [] [] none none none [] [] [str]) .null = true ∧
+    visit false (RS.mk none false false false 0 none [] [] none none (some strN) [] [strN] []) .null = false := by decide
+
 /-- **write-only properties are allowed in requests**: clearing every `writeOnly` flag of a schema (at any
-depth) never changes the request-side verdict, for either setting of the exclusion option -/
+depth of properties, items and composition members) never changes the request-side verdict, for either
+setting of the exclusion option -/
 theorem writeOnly_irrelevant (exro : Bool) : ∀ (s : RS) (v : V), visit exro s.clearWO v = visit exro s v := by
-  have key := visit.mutual_induct
-    (motive_1 := fun s v => visit exro s.clearWO v = visit exro s v)
-    (motive_2 := fun s kvs => visitFields exro s.clearWO kvs = visitFields exro s kvs)
-    (motive_3 := fun it xs => visitItems exro it.clearWO xs = visitItems exro it xs)
-  -- the shortcut for empty schemas may apply to one side only; then the general path accepts anyway
-  have shortcut : ∀ (s : RS) (v : V) (g g' : Bool), v.isNull = false →
-      visit exro s.clearWO v = (isEmptyLeaf s.clearWO || g') → visit exro s v = (isEmptyLeaf s || g) →
-      (isEmptyLeaf s.clearWO = false → isEmptyLeaf s = false → g' = g) →
-      visit exro s.clearWO v = visit exro s v := by
-    intro s v g g' hv h1 h2 hg
-    cases hc : isEmptyLeaf s.clearWO with
-    | true =>
-      have e := noConstraint_of_emptyLeaf _ hc
-      rw [visit_noConstraint exro _ e v hv, visit_noConstraint exro s (noConstraint_of_clearWO s e) v hv]
-    | false =>
-      cases hs : isEmptyLeaf s with
-      | true => rw [isEmptyLeaf_clearWO_of s hs] at hc; cases hc
-      | false => rw [h1, h2, hc, hs, hg hc hs]
-  refine (key ?null ?bool ?int ?half ?str ?arr ?obj ?inil ?icons ?fnil ?fcons).1
-  case null => intro s; simp [visit, clearWO_nullable]
-  case bool =>
-    intro s b
-    exact shortcut s _ _ _ rfl (by rw [visit]) (by rw [visit]) (fun _ _ => by rw [clearWO_ty])
-  case int =>
-    intro s n
-    exact shortcut s _ _ _ rfl (by rw [visit]) (by rw [visit]) (fun _ _ => by rw [clearWO_ty, clearWO_max])
-  case half =>
-    intro s n
-    exact shortcut s _ _ _ rfl (by rw [visit]) (by rw [visit]) (fun _ _ => by rw [clearWO_ty, clearWO_max])
-  case str =>
-    intro s t
-    exact shortcut s _ _ _ rfl (by rw [visit]) (by rw [visit]) (fun _ _ => by rw [clearWO_ty, clearWO_minLen])
+  have key := visitV.mutual_induct
+    (motive_1 := fun v => ∀ s, satVB exro v s.clearWO = satVB exro v s)
+    (motive_2 := fun kvs => ∀ kf ∈ satFieldsB exro kvs, ∀ s, kf.2 s.clearWO = kf.2 s)
+    (motive_3 := fun xs => ∀ f ∈ satItemsB exro xs, ∀ s, f s.clearWO = f s)
+  have h := (key ?null ?bool ?int ?half ?str ?arr ?obj ?inil ?icons ?fnil ?fcons).1
+  · intro s v; rw [visit_eq_satReqB, visit_eq_satReqB]; exact h v s
+  case null => intro s; unfold satVB; exact satCB_clearWO true _ (fun _ => rfl) s
+  case bool => intro b s; unfold satVB; exact satCB_clearWO false _ (fun s => by simp [ownBool, clearWO_ty]) s
+  case int => intro n s; unfold satVB; exact satCB_clearWO false _ (fun s => by simp [ownInt, clearWO_ty, clearWO_max]) s
+  case half => intro n s; unfold satVB; exact satCB_clearWO false _ (fun s => by simp [ownHalf, clearWO_ty, clearWO_max]) s
+  case str => intro t s; unfold satVB; exact satCB_clearWO false _ (fun s => by simp [ownStr, clearWO_ty, clearWO_minLen]) s
   case arr =>
-    intro s xs ih
-    refine shortcut s _ _ _ rfl (by rw [visit]) (by rw [visit]) (fun _ _ => ?_)
+    intro xs ih s; unfold satVB
+    refine satCB_clearWO false _ ?_ s
+    intro s'
+    unfold ownArr
     rw [clearWO_ty, clearWO_items]
-    cases s.items with
+    cases s'.items with
     | none => rfl
-    | some it => simp only [clearWOOpt]; rw [ih it]
+    | some it =>
+      simp only [clearWOOpt]
+      congr 1
+      apply all_congr_mem
+      intro f hf
+      exact ih f hf it
   case obj =>
-    intro s kvs ih
-    refine shortcut s _ _ _ rfl (by rw [visit]) (by rw [visit]) (fun _ _ => ?_)
-    rw [clearWO_ty, ih]
-    have h1 : roLoopOK exro s.clearWO.props kvs = roLoopOK exro s.props kvs := by
-      unfold roLoopOK
-      rw [clearWO_props, keys_clearWOProps]
-      apply List.all_congr rfl
-      intro k
-      rw [isRO_clearWO]
-    have h2 : requiredOK s.clearWO kvs = requiredOK s kvs := by
-      unfold requiredOK
-      rw [clearWO_required, clearWO_props]
-      apply List.all_congr rfl
-      intro k
-      rw [isRO_clearWO]
-    rw [h1, h2]
-  case inil => intro it; simp [visitItems]
-  case icons => intro it v r ih1 ih2; rw [visitItems, visitItems, ih1, ih2]
-  case fnil => intro s; simp [visitFields]
+    intro kvs ih s; unfold satVB
+    exact satCB_clearWO false _ (fun s' => ownObj_clearWO exro _ s' ih) s
+  case inil => intro f hf; simp [satItemsB] at hf
+  case icons =>
+    intro v r ih1 ih2 f hf
+    unfold satItemsB at hf
+    rcases List.mem_cons.mp hf with rfl | hf
+    · exact ih1
+    · exact ih2 f hf
+  case fnil => intro kf hf; simp [satFieldsB] at hf
   case fcons =>
-    intro s k v r ih1 ih2
-    rw [visitFields, visitFields, ih2, clearWO_props, lookup_clearWOProps, clearWO_addl]
-    cases lookup k s.props with
-    | none => rfl
-    | some p => simp only [Option.map_some]; rw [ih1 p]
+    intro k v r ih1 ih2 kf hf
+    unfold satFieldsB at hf
+    rcases List.mem_cons.mp hf with rfl | hf
+    · exact ih1
+    · exact ih2 kf hf
 
 /-! ## (d) decoders -/
 
-def exInt' : RS := RS.mk (some .integer) false false false 0 none [] [] none none
+def exInt' : RS := RS.leaf (some .integer) false false false 0 none [] [] none none
 
 
 /- Full-strength statement (does NOT hold of the code, see `formUnparsable_witness`): the same without `hu`. -/
@@ -440,14 +384,14 @@ object the form fields encode under the declared types and serialization methods
 spaceDelimited, pipeDelimited); absent and empty fields are absent from the object (repair 2621864). -/
 theorem decodeForm_eq_spec_partial (fields : List (Str × List Str)) (encs : List (Str × Enc)) (props : List (Str × RS))
     (hu : formUnparsable fields encs props = false)
-    (hwf : encsWF encs props = true) (hpre : formPre props = .ok) :
+    (hwf : encsWF encs props = true) (hpre : ∀ kp ∈ props, declOK kp.2 = true) :
     specFormProps fields encs props = some (decodeFormProps fields encs props) :=
-  formProps_agree fields encs props hu hwf hpre
+  formProps_agree fields encs props hu hwf (fun kp h => Or.inr (propPre_of_declOK kp.2 (hpre kp h)))
 
 /-- inside `FormFieldUnparsable` the decoder really differs from what the fields encode: `a=x` for an integer
 property encodes nothing, the decoder answers the empty object (finding #20 / F-C06-1) -/
 theorem formUnparsable_witness :
-    let props := [(['a'], RS.mk (some .integer) false false false 0 none [] [] none none)]
+    let props := [(['a'], RS.leaf (some .integer) false false false 0 none [] [] none none)]
     let fields := [(['a'], [['x']])]
     formUnparsable fields [] props = true ∧ (specFormProps fields [] props).isNone = true ∧
     (decodeFormProps fields [] props).isEmpty = true := by decide
@@ -456,10 +400,10 @@ theorem formUnparsable_witness :
 properties `a` (string) and `b` (integer) encodes the object with `b` only; the decoder now builds exactly
 that object (one entry, no `a: null`) and the validator accepts it -/
 theorem formMissing_regression :
-    let pa := RS.mk (some .string) false false false 0 none [] [] none none
-    let pb := RS.mk (some .integer) false false false 0 none [] [] none none
+    let pa := RS.leaf (some .string) false false false 0 none [] [] none none
+    let pb := RS.leaf (some .integer) false false false 0 none [] [] none none
     let props := [(['a'], pa), (['b'], pb)]
-    let s := RS.mk (some .object) false false false 0 none props [] none none
+    let s := RS.leaf (some .object) false false false 0 none props [] none none
     let fields := [(['b'], [['1']])]
     formUnparsable fields [] props = false ∧
     keys (decodeFormProps fields [] props) = [['b']] ∧
@@ -471,7 +415,7 @@ written under the per-property encodings (exploded, or joined with the style's d
 contains it), the fields written encode exactly that object: decimal integers, `n.5` numbers, booleans
 and strings parse back to themselves. Any number of properties, any values. -/
 theorem specForm_roundtrip (encs : List (Str × Enc)) (val : Str → Option V) (props : List (Str × RS))
-    (hnd : (keys props).Nodup)
+    (hnd : (keys props).Nodup) (hnc : ∀ kp ∈ props, hasCompP kp.2 = false)
     (henc : ∀ k p v, (k, p) ∈ props → val k = some v → FormEncodable p (lookup k encs) v) :
     specFormProps (encodeForm encs val props) encs props = some (objOf val props) := by
   have gen : ∀ ps : List (Str × RS), (∀ kp ∈ ps, kp ∈ props) →
@@ -490,8 +434,12 @@ theorem specForm_roundtrip (encs : List (Str × Enc)) (val : Str → Option V) (
       cases hv : val k with
       | none =>
         rw [hv] at hl
-        have : specFormProp (encodeForm encs val props) k p (lookup k encs) = some none := by
-          unfold specFormProp; rw [hl]; rfl
+        have : specDecl (encodeForm encs val props) k p (lookup k encs) = some none := by
+          unfold specDecl specFormProp
+          simp only [Option.bind_none] at hl
+          rw [hl]
+          rw [hnc (k, p) hmem]
+          rfl
         simp [this, objOf, hv]
       | some v =>
         have he := henc k p v hmem hv
@@ -508,9 +456,9 @@ per-property encodings is decoded to itself (properties the client leaves out st
 theorem decodeForm_roundtrip (encs : List (Str × Enc)) (val : Str → Option V) (props : List (Str × RS))
     (hnd : (keys props).Nodup)
     (henc : ∀ k p v, (k, p) ∈ props → val k = some v → FormEncodable p (lookup k encs) v)
-    (hwf : encsWF encs props = true) (hpre : formPre props = .ok) :
+    (hwf : encsWF encs props = true) (hpre : ∀ kp ∈ props, declOK kp.2 = true) :
     decodeFormProps (encodeForm encs val props) encs props = objOf val props := by
-  have hs := specForm_roundtrip encs val props hnd henc
+  have hs := specForm_roundtrip encs val props hnd (fun kp h => noComp_of_declOK kp.2 (hpre kp h)) henc
   have hu : formUnparsable (encodeForm encs val props) encs props = false := by
     generalize encodeForm encs val props = fields at hs
     generalize objOf val props = o at hs
@@ -521,23 +469,121 @@ theorem decodeForm_roundtrip (encs : List (Str × Enc)) (val : Str → Option V)
       obtain ⟨k, p⟩ := x
       unfold specFormProps at hs
       simp only [formUnparsable, List.any_cons, Bool.or_eq_false_iff]
-      cases h1 : specFormProp fields k p (lookup k encs) with
+      cases h1 : specDecl fields k p (lookup k encs) with
       | none => simp [h1] at hs
       | some o1 =>
         cases h2 : specFormProps fields encs r with
         | none => cases o1 <;> simp [h1, h2] at hs
         | some l => exact ⟨by simp, ih l h2⟩
-  have := formProps_agree _ encs props hu hwf hpre
+  have := formProps_agree _ encs props hu hwf (fun kp h => Or.inr (propPre_of_declOK kp.2 (hpre kp h)))
   rw [hs] at this
   exact (Option.some.inj this).symm
 
 example :
     let val : Str → Option V := fun k => if k = ['a'] then some (.int (-12)) else if k = ['b'] then some (.arr [.half 1, .int 3]) else none
-    let props := [(['a'], exInt'), (['b'], RS.mk (some .array) false false false 0 none [] [] none (some (RS.mk (some .number) false false false 0 none [] [] none none)))]
+    let props := [(['a'], exInt'), (['b'], RS.leaf (some .array) false false false 0 none [] [] none (some (RS.leaf (some .number) false false false 0 none [] [] none none)))]
     let encs := [(['b'], ({ style := "pipeDelimited".toList, explode := some false } : Enc))]
     encodeForm encs val props = [(['a'], ["-12".toList]), (['b'], ["1.5|3".toList])] ∧
     formUnparsable (encodeForm encs val props) encs props = false ∧
     keys (decodeFormProps (encodeForm encs val props) encs props) = [['a'], ['b']] := by decide
+
+/-! ### properties declared inside composition members (urlencoded, multipart) -/
+
+/-- every property declared in the schema itself is a declaration the urlencoded decoder visits … -/
+theorem props_sub_flatDecls (s : RS) : ∀ kp ∈ s.props, kp ∈ flatDecls s := by
+  intro kp h
+  cases s
+  unfold flatDecls
+  simp only [RS.props] at h
+  simp [h]
+
+theorem flatDeclsL_mem (l : List RS) (m : RS) (hm : m ∈ l) : ∀ kp ∈ flatDecls m, kp ∈ flatDeclsL l := by
+  induction l with
+  | nil => cases hm
+  | cons x r ih =>
+    intro kp hkp
+    unfold flatDeclsL
+    rcases List.mem_cons.mp hm with rfl | hm
+    · simp [hkp]
+    · simp [ih hm kp hkp]
+
+/-- … and so is every declaration of every `allOf` / `anyOf` / `oneOf` member, at any depth (the class of seeded
+change r2-m2). `decodeFormProps` decodes each of them with `lookup k encs`: the media type's encoding of a
+name applies wherever the name is declared. -/
+theorem member_decls_sub_flatDecls (s m : RS) (hm : m ∈ s.allOf ∨ m ∈ s.anyOf ∨ m ∈ s.oneOf) :
+    ∀ kp ∈ flatDecls m, kp ∈ flatDecls s := by
+  intro kp hkp
+  cases s
+  unfold flatDecls
+  simp only [RS.allOf, RS.anyOf, RS.oneOf] at hm
+  simp only [List.mem_append]
+  rcases hm with h | h | h
+  · exact Or.inl (Or.inl (Or.inl (flatDeclsL_mem _ m h kp hkp)))
+  · exact Or.inl (Or.inl (Or.inr (flatDeclsL_mem _ m h kp hkp)))
+  · exact Or.inl (Or.inr (flatDeclsL_mem _ m h kp hkp))
+
+/-- a declaration kept by the property loop is decoded under the encoding registered for its name -/
+theorem decodeFormProps_mem (fields : List (Str × List Str)) (encs : List (Str × Enc)) (decls : List (Str × RS))
+    (k : Str) (v : V) (h : (k, v) ∈ decodeFormProps fields encs decls) :
+    ∃ p, (k, p) ∈ decls ∧ decodePropC fields k (lookup k encs) p = some v := by
+  induction decls with
+  | nil => simp [decodeFormProps] at h
+  | cons x r ih =>
+    obtain ⟨k0, p0⟩ := x
+    unfold decodeFormProps at h
+    cases hd : decodePropC fields k0 (lookup k0 encs) p0 with
+    | none =>
+      simp only [hd] at h
+      obtain ⟨p, hp, hv⟩ := ih h
+      exact ⟨p, by simp [hp], hv⟩
+    | some w =>
+      cases w with
+      | null =>
+        simp only [hd] at h
+        obtain ⟨p, hp, hv⟩ := ih h
+        exact ⟨p, by simp [hp], hv⟩
+      | bool _ | int _ | half _ | str _ | arr _ | obj _ =>
+        simp only [hd, List.mem_cons, Prod.mk.injEq] at h
+        rcases h with ⟨rfl, rfl⟩ | h
+        · exact ⟨p0, by simp, hd⟩
+        · obtain ⟨p, hp, hv⟩ := ih h
+          exact ⟨p, by simp [hp], hv⟩
+
+/-- names declared once are merged unchanged -/
+theorem mergeKV_nodup (l : List (Str × V)) (h : (keys l).Nodup) : mergeKV l = some l := by
+  induction l with
+  | nil => rfl
+  | cons x r ih =>
+    obtain ⟨k, v⟩ := x
+    simp only [keys, List.map_cons, List.nodup_cons] at h
+    unfold mergeKV
+    rw [ih h.2]
+    simp only [lookup_none_of_not_mem_keys k r h.1]
+
+/-- r2-m2 regression: `a` is an integer array declared inside an `allOf` member, the media type says
+`pipeDelimited`, not exploded: `a=1|2` is the array [1, 2] for model and spec, and the same under `anyOf` -/
+theorem encoding_applies_inside_members :
+    let arrInt := RS.leaf (some .array) false false false 0 none [] [] none (some (RS.leaf (some .integer) false false false 0 none [] [] none none))
+    let m := RS.leaf none false false false 0 none [(['a'], arrInt)] [] none none
+    let sAll := RS.mk (some .object) false false false 0 none [] [] none none none [] [] [m]
+    let sAny := RS.mk (some .object) false false false 0 none [] [] none none none [] [m] []
+    let encs := [(['a'], ({ style := "pipeDelimited".toList, explode := some false } : Enc))]
+    let form := some [(['a'], ["1|2".toList])]
+    [sAll, sAny].all (fun s =>
+      (match decodeForm s encs form with
+       | .val (.obj [(k, .arr [.int 1, .int 2])]) => k == ['a']
+       | _ => false) &&
+      (match (specFormProps [(['a'], ["1|2".toList])] encs (flatDecls s)).bind mergeKV with
+       | some [(k, .arr [.int 1, .int 2])] => k == ['a']
+       | _ => false)) = true := by decide
+
+/-- multipart with `allOf`: a part is declared iff some member declares it; the schema's own properties and
+additionalProperties are not consulted -/
+theorem partDecl_allOf (s : RS) (name : Str) (h : s.allOf ≠ []) :
+    partDecl s name = (if s.allOf.any (fun m => (lookup name m.props).isSome) then .found else .undefined) := by
+  unfold partDecl
+  have : s.allOf.isEmpty = false := by cases hl : s.allOf with | nil => exact absurd hl h | cons _ _ => rfl
+  simp [this]
 
 /-- multipart: properties without a part are absent from the object (not null) -/
 theorem assemble_absent (vals : List (Str × V)) (props : List (Str × RS)) (k : Str)
@@ -631,8 +677,16 @@ theorem decode_agrees (reg : List (Str × DecK)) (rb : ReqBody) (ct : Str) (b : 
               simp [h, hc', hs, hn, hreg, hf, hty, hpre]
             simp only [exclFormUnparsable, hrun] at h1
             simp only [formEncsWF, hrun] at h3
-            have := formProps_agree fields mt.encs s.props h1 h3 hpre
-            simp [this]
+            cases hok : (!(flatDecls s).all fun kp => declOKC kp.snd) || numClash (flatDecls s) with
+            | true => simp
+            | false =>
+              simp only [Bool.or_eq_false_iff, Bool.not_eq_false'] at hok
+              have hdecl : ∀ kp ∈ flatDecls s, hasCompP kp.2 = true ∨ propPre kp.2 := by
+                intro kp hkp
+                exact declOKC_cases kp.2 (List.all_eq_true.mp hok.1 kp hkp)
+              have := formProps_agree fields mt.encs (flatDecls s) h1 h3 hdecl
+              simp only [this, Bool.false_eq_true, if_false, Option.bind_some, beq_self_eq_true, if_true]
+              cases mergeKV (decodeFormProps fields mt.encs (flatDecls s)) <;> simp
 
 /- Full-strength statement (does NOT hold of the code, see `witness_formFieldUnparsable`):
      accept_iff : (validateRequestBody reg rb ct b exro).isOk = true ↔ Accept reg rb ct b exro  -/
@@ -731,9 +785,9 @@ theorem acceptB_iff (reg : List (Str × DecK)) (rb : ReqBody) (ct : Str) (b : Bo
 /-! ### witnesses at the level of the whole decision, and non-vacuity -/
 
 def exStr (s : String) : Str := s.toList
-def exInt : RS := RS.mk (some .integer) false false false 0 none [] [] none none
-def exString : RS := RS.mk (some .string) false false false 0 none [] [] none none
-def exObj (props : List (Str × RS)) (req : List Str) : RS := RS.mk (some .object) false false false 0 none props req none none
+def exInt : RS := RS.leaf (some .integer) false false false 0 none [] [] none none
+def exString : RS := RS.leaf (some .string) false false false 0 none [] [] none none
+def exObj (props : List (Str × RS)) (req : List Str) : RS := RS.leaf (some .object) false false false 0 none props req none none
 def exForm : Str := exStr "application/x-www-form-urlencoded"
 def exBody (text : String) (json : Option V) (form : Option (List (Str × List Str))) : BodyIn :=
   { text := text.toList, json := json, form := form, parts := none }
@@ -749,7 +803,7 @@ theorem witness_formFieldUnparsable :
 property says; a missing *required* nullable property is rejected -/
 theorem regression_formNullForMissing :
     let rb : ReqBody := ⟨true, [(exForm, ⟨some (exObj [(exStr "a", exString), (exStr "b", exInt)] []), []⟩)]⟩
-    let sn := RS.mk (some .string) true false false 0 none [] [] none none
+    let sn := RS.leaf (some .string) true false false 0 none [] [] none none
     let rb2 : ReqBody := ⟨true, [(exForm, ⟨some (exObj [(exStr "a", sn), (exStr "b", exInt)] [exStr "a"]), []⟩)]⟩
     let b := exBody "b=1" none (some [(exStr "b", [exStr "1"])])
     exclFormUnparsable registry rb exForm b = false ∧
@@ -759,13 +813,27 @@ theorem regression_formNullForMissing :
 /-- regression of F-C06-2 (repaired, e80060c): JSON body `{"a": null}` against `{a: string, readOnly, nullable}`
 is rejected, and accepted under ExcludeReadOnlyValidations -/
 theorem regression_readOnlyNull :
-    let pa := RS.mk (some .string) true true false 0 none [] [] none none
+    let pa := RS.leaf (some .string) true true false 0 none [] [] none none
     let rb : ReqBody := ⟨true, [(exStr "application/json", ⟨some (exObj [(exStr "a", pa)] []), []⟩)]⟩
     let b := exBody "{\"a\":null}" (some (.obj [(exStr "a", .null)])) none
     validateRequestBody registry rb (exStr "application/json") b false = .schemaErr ∧
     acceptB registry rb (exStr "application/json") b false = false ∧
     validateRequestBody registry rb (exStr "application/json") b true = .ok ∧
     acceptB registry rb (exStr "application/json") b true = true := by decide
+
+/-- r2-m3 regression: a body of white space only is a body: it is not "missing" (so an optional body is not
+waved through), it is decoded — blank JSON is a decoding error, blank text/plain is that string and is
+validated — and an undeclared content type is still rejected -/
+theorem blank_body_is_a_body :
+    let js : ReqBody := ⟨false, [(exStr "application/json", ⟨some (exObj [(exStr "a", exInt)] []), []⟩)]⟩
+    let tx : ReqBody := ⟨false, [(exStr "text/plain", ⟨some (RS.leaf (some .string) false false false 3 none [] [] none none), []⟩)]⟩
+    let b := exBody "  " none (some [(exStr "  ", [[]])])
+    validateRequestBody registry js (exStr "application/json") b false = .decodeErr ∧
+    acceptB registry js (exStr "application/json") b false = false ∧
+    validateRequestBody registry tx (exStr "text/plain") b false = .schemaErr ∧
+    acceptB registry tx (exStr "text/plain") b false = false ∧
+    validateRequestBody registry js (exStr "text/plain") b false = .badCT ∧
+    validateRequestBody registry ⟨true, js.content⟩ (exStr "application/json") b false ≠ .missing := by decide
 
 /-- #36 (fixed): a JSON body with trailing data is not one JSON value: the decoder's view is `none`, the
 model rejects with a decoding error and so does the property -/
@@ -784,7 +852,7 @@ example :
     validateRequestBody registry rb ct b false = .ok ∧ acceptB registry rb ct b false = true := by decide
 
 example :
-    let ro := RS.mk (some .string) false true false 0 none [] [] none none
+    let ro := RS.leaf (some .string) false true false 0 none [] [] none none
     let rb : ReqBody := ⟨false, [(exStr "application/json", ⟨some (exObj [(exStr "id", ro), (exStr "n", exInt)] [exStr "id", exStr "n"]), []⟩),
                                  (star, ⟨none, []⟩)]⟩
     let ct := exStr "application/json; charset=utf-8"
